@@ -110,6 +110,9 @@ def scan_task(task):
                         globals_written.append((f.name, txt))
     res('C15/State/no-mutable-state-shared-between-instances/D-inf', not shared and not globals_written,
         f'mutable class-level defaults: {shared}; class / module attributes written by methods: {globals_written}', 'pokerkit.state.State')
+    # what a state does next depends on its fields and the operations performed -- not on which queries were asked in between
+    import props.scans as SC
+    out.append(SC.purity_result(st, 'C15'))
     return {'results': out, 'contract': None}
 
 
